@@ -231,6 +231,23 @@ def reuse_work(chunk):
                 bad = ('after calls %r the reused generator returned %r, a fresh one %r'
                        % (trace, [g.tolist() for g in got][:3], [g.tolist() for g in fresh][:3]))
                 break
+        if bad is None and len(seq) == 2:
+            # the two sequences requested first, consumed afterwards (zip(g(x, n=1), g(x, n=2)), a, b = g(x1), g(x2)):
+            # each must still be the documented sequence for ITS arguments
+            gen2 = lib_generator(cls, opts)
+            reqs = []
+            for idx in seq:
+                xv, method, n, order = REUSE_CALLS[idx]
+                x = np.asarray(xv, dtype=float)
+                reqs.append((gen2(x, method, n, order), x, method, n, order))
+            for it, x, method, n, order in reqs:
+                got = [np.array(s) for s in it]
+                fresh = [np.array(s) for s in lib_generator(cls, opts)(x, method, n, order)]
+                if not (len(got) == len(fresh) and all(np.array_equal(a, b) for a, b in zip(got, fresh))):
+                    bad = ('requested for calls %r before any was consumed: the sequence for %r is %r, a fresh generator gives %r'
+                           % (list(seq), (np.asarray(x).tolist(), method, n, order), [g.tolist() for g in got][:3],
+                              [g.tolist() for g in fresh][:3]))
+                    break
         acc.case(('reuse', cls, sorted(opts.items()), seq), nontrivial=len(seq) > 1,
                  cell='reuse/%s' % cls, outcome=bad)
         if bad:
